@@ -59,7 +59,7 @@ def violation(text, root):
     # invented text: '(content missing)' may only stand in for a footnote whose content really is missing. When the text
     # has exactly one reference and exactly one block for a marker, the block's content belongs in that note.
     refs = Counter(re.findall(r'\{\{FOOTNOTE ([^ \n}]+)\}\}', text))
-    blocks = Counter(m.strip() for m in re.findall(r'^[ \t]*FOOTNOTE ([^ \n]+)[ \t]*$', text, re.M))
+    blocks = Counter(m.strip() for m in re.findall(r'^[ \t]*FOOTNOTE +([^ \n]+)[ \t]*$', text, re.M))
 
     def notes_of(n, acc):
         if isinstance(n, str) or n[0] == 'meta':
@@ -86,6 +86,7 @@ def cases(ctx, n):
         root = rng.choice(gen.ROOTS7)
         t = gen.doc_text(rng, root, corners=0.3, risky=(rng.random() < 0.3), scripts=(rng.random() < 0.5))
         out.append((t, root, ''))
+    out += [(t, r, '') for _, t, r in gen.pairwise_docs(tokens=True)]   # every construct inside every context
     return out
 
 
